@@ -1,4 +1,4 @@
-import SslModel.Thm.C01StU
+import SslModel.Thm.C01StS
 set_option linter.unusedSimpArgs false
 set_option linter.unusedVariables false
 set_option maxRecDepth 2000
@@ -173,7 +173,7 @@ theorem lookup_single (fr : Frame) (x : String) : Env.lookup [fr] x = frameLooku
   simp only [Env.lookup]
   cases frameLookup x fr <;> rfl
 
-theorem step_E (f : Nat) (hE : PE f) (hL : PL f) (hS : PS f) (hA : PA f) (hO : PO f) (hF : PF f) (hLp : PLp f) (hW : PW f) (hWS : PWS f) (hFo : PFo f) (hCol : PCol f) :
+theorem step_E (f : Nat) (hE : PE f) (hL : PL f) (hS : PS f) (hA : PA f) (hO : PO f) (hF : PF f) (hLp : PLp f) (hW : PW f) (hWS : PWS f) (hFo : PFo f) (hCol : PCol f) (hFd : PFd f) :
     PE (f + 1) := by
   intro lp ret S g env e T σ henv hg hr hst ht
   cases e with
@@ -927,6 +927,52 @@ theorem step_E (f : Nat) (hE : PE f) (hL : PL f) (hS : PS f) (hA : PA f) (hO : P
           have := envOkG_insert ([] :: env) g "$iter" itv _ (envOkG_push env g henv) hitv
           simpa [Env.insert] using this
         exact hFo lp ret S _ _ x itv body b t T0 σ1 henv2 (gwf_cons g "$iter" _ hg wti) hr hst hitv (by simpa using hb) wt htb
+    all_goals cases h2
+  | struct fs =>
+    simp only [tyS] at ht
+    obtain ⟨fts, hfts, h2⟩ := bind_ok ht
+    rw [(okW_ok h2).1]
+    simp only [eval]
+    apply outP_bind lp ret S (fun S' vs => Rel S' fts vs) _ _ _ σ (hFd lp ret S g env fs fts σ henv hg hr hst hfts)
+    intro vs σ1 S hle hst _ hvs
+    exact outP_pure _ _ _ _ _ _ hst (struct_literal fts vs hvs)
+  | facc e k =>
+    simp only [tyS] at ht
+    obtain ⟨te, hte, h2⟩ := bind_ok ht
+    simp only [eval]
+    apply outP_bind lp ret S (fun S' v => VT S' te v) _ _ _ σ (hE lp ret S g env e te σ henv hg hr hst hte)
+    intro x σ1 S hle hst _ hx
+    split at h2
+    · rename_i fts
+      split at h2
+      · rename_i t hk
+        rw [(okW_ok h2).1]
+        obtain ⟨fs, v, rfl, hv, hvt⟩ := field_value hx hk
+        simp only [hv]
+        exact outP_pure _ _ _ _ _ _ hst hvt
+      · cases h2
+    · rename_i ms
+      have wte := tyS_wf lp ret g e _ hte
+      split at h2
+      · cases h2
+      · split at h2
+        · cases h2
+        · split at h2
+          · rename_i T0 hq
+            rw [(okW_ok h2).1]
+            obtain ⟨m, hm, hxm⟩ := vt_member hx
+            have wl := wfL_of_multi wte
+            have wm := wfL_memU wl hm
+            obtain ⟨wT, hmem⟩ := fieldType_upper k ms T0 wl hq
+            obtain ⟨tm, hbm, hsub⟩ := hmem m hm
+            cases m with
+            | struct fts =>
+              simp only [baseField] at hbm
+              obtain ⟨fs, v, rfl, hv, hvt⟩ := field_value hxm hbm
+              simp only [hv]
+              exact outP_pure _ _ _ _ _ _ hst (vt_trans hvt (baseField_wf k _ tm wm (by simpa [baseField] using hbm)) wT hsub)
+            | _ => simp [baseField] at hbm
+          · cases h2
     all_goals cases h2
   | post op e =>
     cases op <;> simp only [tyS] at ht
